@@ -32,6 +32,7 @@ CFG = {
     "pregen": pregen,
     "theorems": [T + n for n in ["C20_equal_refl", "C20_equal_symm", "C20_nil_iff_equal", "C20_prj", "C20_registry",
                                  "C20_registry_names", "C20_parse_agree", "C20_parse_agree_tokens", "C20_lex_proj4", "C20_lex_wkt",
+                                 "C20_transform_agree", "C20_transform_agree_partial",
                                  "C20_parse_agree_partial", "C20_wkt_parameter_map",
                                  "C20_wkt_false_origin_metres", "C20_noshift_datum_differs"]],
     "level": "proof",
@@ -42,6 +43,9 @@ CFG = {
         "harness/cmd/c20 + lean driver + lib/vcheck.py transport inputs faithfully",
     ],
     "assumptions": ["ASCII definitions; no +pm= (owned by C09), no hexadecimal float literals",
+                    "C20_parse_agree has ONE hypothesis beyond wellFormed/styleOK: the numeral contract numeralsRead c (strconv.ParseFloat reads each "
+                    "decimal of c, as renderDec writes it, as that decimal; the text is a non-empty token over [0-9.-]) - decidable, evaluated by the "
+                    "judge for every numeral of every generated case (DIFF when false)",
                     "the micrometre clause on compiled float code is numeric evidence from the correspondence run, not a theorem"],
     "rule": "structured CRS descriptions (5 projected kinds + geographic; spheroids built-in or random (a,1/f); TOWGS84 with 3/7 terms or a named datum; "
             "metre/foot/US survey foot with false origins that are not round in metres; WKT spellings: ESRI names, AUTHORITY, blanks, AXIS) rendered by the "
